@@ -27,6 +27,10 @@ pub enum CSel {
     Add(HSel),
     Remove,
     Fresh { fee: u8, to_cp: u8, htlcs: Vec<HSel> },
+    /// the content already signed for this number (or the last content) with exactly one
+    /// attribute changed: 0 fee rate +1 (balances kept), 1 expiry of the first HTLC set to 0 (or to
+    /// 1000 if it is 0), 2 first HTLC +1 sat (taken from the holder), 3 fee rate -1
+    Tweak(u8),
 }
 
 #[derive(Clone, Debug, Serialize, Deserialize, PartialEq, Eq, Hash)]
@@ -89,6 +93,7 @@ fn csel_strat() -> impl Strategy<Value = CSel> {
         4 => Just(CSel::Same),
         3 => hsel_strat().prop_map(CSel::Add),
         1 => Just(CSel::Remove),
+        2 => (0u8..4).prop_map(CSel::Tweak),
         2 => (0u8..3, 0u8..3, proptest::collection::vec(hsel_strat(), 0..4))
             .prop_map(|(fee, to_cp, htlcs)| CSel::Fresh { fee, to_cp, htlcs }),
     ]
@@ -229,6 +234,27 @@ impl C03 {
                             let (mut o, mut r) = (base.offered.clone(), base.received.clone());
                             if !o.is_empty() { o.remove(0); } else if !r.is_empty() { r.remove(0); }
                             finish_content(anchors, value, base.feerate, base.to_cp, o, r)
+                        }
+                        CSel::Tweak(k) => {
+                            let mut c2 = signed.get(&n).map(|r| r.content.clone()).unwrap_or(base.clone());
+                            match k % 4 {
+                                0 => c2.feerate += 1,
+                                3 => c2.feerate = c2.feerate.saturating_sub(1),
+                                1 => {
+                                    if let Some(h) = c2.offered.first_mut().or(c2.received.first_mut()) {
+                                        h.cltv = if h.cltv == 0 { 1000 } else { 0 };
+                                    }
+                                }
+                                _ => {
+                                    if c2.to_holder > 1000 {
+                                        if let Some(h) = c2.offered.first_mut().or(c2.received.first_mut()) {
+                                            h.sat += 1;
+                                            c2.to_holder -= 1;
+                                        }
+                                    }
+                                }
+                            }
+                            c2
                         }
                         CSel::Fresh { fee, to_cp, htlcs } => {
                             let o = htlcs.iter().filter(|h| h.offered).map(mk_htlc).collect();
